@@ -133,3 +133,10 @@ Proof. split; reflexivity. Qed.
 
 Lemma session_synack_timeout : synack_timeout_ms = 30000%Z.
 Proof. reflexivity. Qed.
+
+Lemma udp_empty_datagram_forwarded :
+  udp_empty_datagram_ends_client = false /\ udp_empty_datagram_ends_server = false.
+Proof. split; reflexivity. Qed.
+
+Lemma udp_bind_follows_target : udp_server_bind_follows_target = true.
+Proof. reflexivity. Qed.
